@@ -36,7 +36,7 @@ func Scan(data string, loc SourceLoc, delims []string) (tokens []Token) {
 		}
 		source := data[ts:te]
 		switch {
-		case data[ts:ts+len(delims[0])] == delims[0]:
+		case strings.HasPrefix(source, delims[0]): // (the match itself: the source may end before an object delimiter would)
 			if trimsLeft(source, delims[0]) {
 				tokens = append(tokens, Token{
 					Type: TrimLeftTokenType,
@@ -53,7 +53,7 @@ func Scan(data string, loc SourceLoc, delims []string) (tokens []Token) {
 					Type: TrimRightTokenType,
 				})
 			}
-		case data[ts:ts+len(delims[2])] == delims[2]:
+		case strings.HasPrefix(source, delims[2]):
 			if trimsLeft(source, delims[2]) {
 				tokens = append(tokens, Token{
 					Type: TrimLeftTokenType,
